@@ -639,7 +639,9 @@ package ro
 //@   iteration ensures count(source.SubscribeWithContext) == 1 && count(attempt.Wait) == 1 && before(source.SubscribeWithContext, attempt.Wait) && arg(source.SubscribeWithContext, 0) == subscriberCtx
 //@   iteration ensures before(subscriptions.AddUnsubscribable, attempt.Wait)
 //@   iteration ensures lastErr != nil && shouldRetry
-//@   iteration ensures count(chpoll) == 1 && before(chpoll, source.SubscribeWithContext) && arg(chpoll, 0) == res(subscriberCtx.Done)
+//@   iteration ensures count(chpoll) == 1 && before(chpoll, source.SubscribeWithContext)
+//@   iteration ensures called(chselect) ==> count(chselect) == 1 && count(subscriberCtx.Done) == 2 && count(call.After) == 1 && arg(call.After, 0) == opts.Delay && arg(chselect, 0) == res(call.After)
+//@   iteration ensures !called(chselect) ==> count(subscriberCtx.Done) == 1 && arg(chpoll, 0) == res(subscriberCtx.Done)
 
 //@ operator RepeatWith
 //@   props C15 C09 C04 C08
@@ -969,7 +971,7 @@ package ro
 //@   ensures [no-tuple-until-every-queue-has-a-value|C05] !(len(old(valueA)) > 0 && len(old(valueB)) > 0) ==> trace()
 //@   ensures [a-tuple-is-emitted-when-every-queue-has-a-value|C05] len(old(valueA)) > 0 && len(old(valueB)) > 0 ==> count(destination.NextWithContext) == 1 && arg(destination.NextWithContext, 0) == ctx
 //@   ensures [pops-exactly-the-heads|C05] len(old(valueA)) > 0 && len(old(valueB)) > 0 ==> len(valueA) == len(old(valueA)) - 1 && len(valueB) == len(old(valueB)) - 1
-//@   ensures [completes-exactly-when-a-finished-queue-is-drained|C05] len(old(valueA)) > 0 && len(old(valueB)) > 0 ==> iff(called(destination.CompleteWithContext), (completedA && len(valueA) == 0) || (completedB && len(valueB) == 0))
+//@   ensures [completes-exactly-when-a-finished-queue-is-drained|C05,C04] len(old(valueA)) > 0 && len(old(valueB)) > 0 ==> iff(called(destination.CompleteWithContext), (completedA && len(valueA) == 0) || (completedB && len(valueB) == 0))
 
 //@ func ZipWith2$1$1$1
 //@   note onUpdate of Zip3 / ZipWith2: as ZipWith1, over 3 queues
@@ -980,7 +982,7 @@ package ro
 //@   ensures [no-tuple-until-every-queue-has-a-value|C05] !(len(old(valueA)) > 0 && len(old(valueB)) > 0 && len(old(valueC)) > 0) ==> trace()
 //@   ensures [a-tuple-is-emitted-when-every-queue-has-a-value|C05] len(old(valueA)) > 0 && len(old(valueB)) > 0 && len(old(valueC)) > 0 ==> count(destination.NextWithContext) == 1 && arg(destination.NextWithContext, 0) == ctx
 //@   ensures [pops-exactly-the-heads|C05] len(old(valueA)) > 0 && len(old(valueB)) > 0 && len(old(valueC)) > 0 ==> len(valueA) == len(old(valueA)) - 1 && len(valueB) == len(old(valueB)) - 1 && len(valueC) == len(old(valueC)) - 1
-//@   ensures [completes-exactly-when-a-finished-queue-is-drained|C05] len(old(valueA)) > 0 && len(old(valueB)) > 0 && len(old(valueC)) > 0 ==> iff(called(destination.CompleteWithContext), (completedA && len(valueA) == 0) || (completedB && len(valueB) == 0) || (completedC && len(valueC) == 0))
+//@   ensures [completes-exactly-when-a-finished-queue-is-drained|C05,C04] len(old(valueA)) > 0 && len(old(valueB)) > 0 && len(old(valueC)) > 0 ==> iff(called(destination.CompleteWithContext), (completedA && len(valueA) == 0) || (completedB && len(valueB) == 0) || (completedC && len(valueC) == 0))
 
 //@ func ZipWith3$1$1$1
 //@   note onUpdate of Zip4 / ZipWith3: as ZipWith1, over 4 queues
@@ -991,7 +993,7 @@ package ro
 //@   ensures [no-tuple-until-every-queue-has-a-value|C05] !(len(old(valueA)) > 0 && len(old(valueB)) > 0 && len(old(valueC)) > 0 && len(old(valueD)) > 0) ==> trace()
 //@   ensures [a-tuple-is-emitted-when-every-queue-has-a-value|C05] len(old(valueA)) > 0 && len(old(valueB)) > 0 && len(old(valueC)) > 0 && len(old(valueD)) > 0 ==> count(destination.NextWithContext) == 1 && arg(destination.NextWithContext, 0) == ctx
 //@   ensures [pops-exactly-the-heads|C05] len(old(valueA)) > 0 && len(old(valueB)) > 0 && len(old(valueC)) > 0 && len(old(valueD)) > 0 ==> len(valueA) == len(old(valueA)) - 1 && len(valueB) == len(old(valueB)) - 1 && len(valueC) == len(old(valueC)) - 1 && len(valueD) == len(old(valueD)) - 1
-//@   ensures [completes-exactly-when-a-finished-queue-is-drained|C05] len(old(valueA)) > 0 && len(old(valueB)) > 0 && len(old(valueC)) > 0 && len(old(valueD)) > 0 ==> iff(called(destination.CompleteWithContext), (completedA && len(valueA) == 0) || (completedB && len(valueB) == 0) || (completedC && len(valueC) == 0) || (completedD && len(valueD) == 0))
+//@   ensures [completes-exactly-when-a-finished-queue-is-drained|C05,C04] len(old(valueA)) > 0 && len(old(valueB)) > 0 && len(old(valueC)) > 0 && len(old(valueD)) > 0 ==> iff(called(destination.CompleteWithContext), (completedA && len(valueA) == 0) || (completedB && len(valueB) == 0) || (completedC && len(valueC) == 0) || (completedD && len(valueD) == 0))
 
 //@ func ZipWith4$1$1$1
 //@   note onUpdate of Zip5 / ZipWith4: as ZipWith1, over 5 queues
@@ -1002,7 +1004,7 @@ package ro
 //@   ensures [no-tuple-until-every-queue-has-a-value|C05] !(len(old(valueA)) > 0 && len(old(valueB)) > 0 && len(old(valueC)) > 0 && len(old(valueD)) > 0 && len(old(valueE)) > 0) ==> trace()
 //@   ensures [a-tuple-is-emitted-when-every-queue-has-a-value|C05] len(old(valueA)) > 0 && len(old(valueB)) > 0 && len(old(valueC)) > 0 && len(old(valueD)) > 0 && len(old(valueE)) > 0 ==> count(destination.NextWithContext) == 1 && arg(destination.NextWithContext, 0) == ctx
 //@   ensures [pops-exactly-the-heads|C05] len(old(valueA)) > 0 && len(old(valueB)) > 0 && len(old(valueC)) > 0 && len(old(valueD)) > 0 && len(old(valueE)) > 0 ==> len(valueA) == len(old(valueA)) - 1 && len(valueB) == len(old(valueB)) - 1 && len(valueC) == len(old(valueC)) - 1 && len(valueD) == len(old(valueD)) - 1 && len(valueE) == len(old(valueE)) - 1
-//@   ensures [completes-exactly-when-a-finished-queue-is-drained|C05] len(old(valueA)) > 0 && len(old(valueB)) > 0 && len(old(valueC)) > 0 && len(old(valueD)) > 0 && len(old(valueE)) > 0 ==> iff(called(destination.CompleteWithContext), (completedA && len(valueA) == 0) || (completedB && len(valueB) == 0) || (completedC && len(valueC) == 0) || (completedD && len(valueD) == 0) || (completedE && len(valueE) == 0))
+//@   ensures [completes-exactly-when-a-finished-queue-is-drained|C05,C04] len(old(valueA)) > 0 && len(old(valueB)) > 0 && len(old(valueC)) > 0 && len(old(valueD)) > 0 && len(old(valueE)) > 0 ==> iff(called(destination.CompleteWithContext), (completedA && len(valueA) == 0) || (completedB && len(valueB) == 0) || (completedC && len(valueC) == 0) || (completedD && len(valueD) == 0) || (completedE && len(valueE) == 0))
 
 //@ func ZipWith5$1$1$1
 //@   note onUpdate of Zip6 / ZipWith5: as ZipWith1, over 6 queues
@@ -1013,7 +1015,7 @@ package ro
 //@   ensures [no-tuple-until-every-queue-has-a-value|C05] !(len(old(valueA)) > 0 && len(old(valueB)) > 0 && len(old(valueC)) > 0 && len(old(valueD)) > 0 && len(old(valueE)) > 0 && len(old(valueF)) > 0) ==> trace()
 //@   ensures [a-tuple-is-emitted-when-every-queue-has-a-value|C05] len(old(valueA)) > 0 && len(old(valueB)) > 0 && len(old(valueC)) > 0 && len(old(valueD)) > 0 && len(old(valueE)) > 0 && len(old(valueF)) > 0 ==> count(destination.NextWithContext) == 1 && arg(destination.NextWithContext, 0) == ctx
 //@   ensures [pops-exactly-the-heads|C05] len(old(valueA)) > 0 && len(old(valueB)) > 0 && len(old(valueC)) > 0 && len(old(valueD)) > 0 && len(old(valueE)) > 0 && len(old(valueF)) > 0 ==> len(valueA) == len(old(valueA)) - 1 && len(valueB) == len(old(valueB)) - 1 && len(valueC) == len(old(valueC)) - 1 && len(valueD) == len(old(valueD)) - 1 && len(valueE) == len(old(valueE)) - 1 && len(valueF) == len(old(valueF)) - 1
-//@   ensures [completes-exactly-when-a-finished-queue-is-drained|C05] len(old(valueA)) > 0 && len(old(valueB)) > 0 && len(old(valueC)) > 0 && len(old(valueD)) > 0 && len(old(valueE)) > 0 && len(old(valueF)) > 0 ==> iff(called(destination.CompleteWithContext), (completedA && len(valueA) == 0) || (completedB && len(valueB) == 0) || (completedC && len(valueC) == 0) || (completedD && len(valueD) == 0) || (completedE && len(valueE) == 0) || (completedF && len(valueF) == 0))
+//@   ensures [completes-exactly-when-a-finished-queue-is-drained|C05,C04] len(old(valueA)) > 0 && len(old(valueB)) > 0 && len(old(valueC)) > 0 && len(old(valueD)) > 0 && len(old(valueE)) > 0 && len(old(valueF)) > 0 ==> iff(called(destination.CompleteWithContext), (completedA && len(valueA) == 0) || (completedB && len(valueB) == 0) || (completedC && len(valueC) == 0) || (completedD && len(valueD) == 0) || (completedE && len(valueE) == 0) || (completedF && len(valueF) == 0))
 
 //@ operator ZipAll
 //@   props C05 C04 C08
@@ -1345,3 +1347,49 @@ package ro
 //@ loop RangeWithStep$1#0
 //@   noexit
 //@   iteration emits destination.NextWithContext(ctx, cursor)
+
+// WindowWhen: one notification at a time. Every callback of the source and of the boundary does all of its work - taking
+// the current window, using it, delivering its successor or the terminal notification - under the emit lock; a boundary
+// tick can then neither complete a window a value is about to be sent to nor open one after the source closed the last.
+
+//@ func WindowWhen$1$1$2
+//@   props C05 C20
+//@   binds ctx value
+//@   maypanic
+//@   track window.* tmp.* destination.*
+//@   ensures [the-value-reaches-the-current-window-under-the-emit-lock|C05,C20] heldat(muEmit, tmp.ANY) && heldat(muEmit, destination.ANY)
+
+//@ func WindowWhen$1$1$3
+//@   props C05 C20
+//@   binds ctx err destination
+//@   maypanic
+//@   track destination.*
+//@   ensures [the-last-window-is-closed-and-the-error-delivered-in-one-step|C05,C20] heldat(muEmit, destination.ANY) && called(destination.ErrorWithContext)
+
+//@ func WindowWhen$1$1$4
+//@   props C05 C20
+//@   binds ctx destination
+//@   maypanic
+//@   track destination.*
+//@   ensures [the-last-window-is-closed-and-the-completion-delivered-in-one-step|C05,C20] heldat(muEmit, destination.ANY) && called(destination.CompleteWithContext)
+
+//@ func WindowWhen$1$1$5
+//@   props C05 C20
+//@   binds ctx
+//@   maypanic
+//@   track destination.*
+//@   ensures [a-tick-swaps-the-window-under-the-emit-lock|C05,C20] heldat(muEmit, destination.ANY)
+
+//@ func WindowWhen$1$1$6
+//@   props C05 C20
+//@   binds ctx err destination
+//@   maypanic
+//@   track destination.*
+//@   ensures [the-last-window-is-closed-and-the-error-delivered-in-one-step|C05,C20] heldat(muEmit, destination.ANY) && called(destination.ErrorWithContext)
+
+//@ func WindowWhen$1$1$7
+//@   props C05 C20
+//@   binds ctx destination
+//@   maypanic
+//@   track destination.*
+//@   ensures [the-last-window-is-closed-and-the-completion-delivered-in-one-step|C05,C20] heldat(muEmit, destination.ANY) && called(destination.CompleteWithContext)
